@@ -109,7 +109,7 @@ func c05Sweep(r *core.Result, c *ipa.IPAConfig, i int, k uint, vals []uint64) {
 func init() {
 	core.Register(&core.Check{
 		ID: "C05", Level: "exploration",
-		Rule:   "MSMPrecomp.MSM is a sum of independent per-scalar walks over (window, digit, carry-in): every (point i, window k, window value v, carry-in c) is driven through the public Commit as a single-coefficient vector — thorough: all of them (i<5: 16 windows x 65535 values x {0,1}; i>=5: 32 windows x 255 values x {0,1}); quick: all 16-bit tables of points 0 and 4, all 8-bit tables, boundary digits {1,2^15-1,2^15,2^15+1,2^16-1,...} on points 1-3 — each compared with incrementally maintained reference multiples; then carry chains (runs of 0xFF.. of every length from every window), S_edge scalars at selected positions, vectors of many lengths from POLY, linearity and agreement with MultiScalar; non-trivial = carry-in set or digit >= half range (negated table entry), or a multi-coefficient vector",
+		Rule:   "MSMPrecomp.MSM is a sum of independent per-scalar walks over (window, digit, carry-in): every (point i, window k, window value v, carry-in c) is driven through the public Commit as a single-coefficient vector — thorough: all of them (i<5: 16 windows x 65535 values x {0,1}; i>=5: 32 windows x 255 values x {0,1}); quick covers the same table sweep (all five 16-bit points and all 8-bit tables) and lighter chain/vector sets; the configuration is also rebuilt under CPU-count overrides {1,3,5,17} and must be bit-identical — each compared with incrementally maintained reference multiples; then carry chains (runs of 0xFF.. of every length from every window), S_edge scalars at selected positions, vectors of many lengths from POLY, linearity and agreement with MultiScalar; non-trivial = carry-in set or digit >= half range (negated table entry), or a multi-coefficient vector",
 		Assume: []string{"reference: textbook twisted-Edwards arithmetic over math/big on the reference CRS (pinned by first/last point and SHA-256 of all 256)", "top windows restricted to values that keep the scalar < r"},
 		Units:  c05Units,
 	})
